@@ -410,6 +410,11 @@ func readHeader(in *io.Reader) (manifest []byte, mac []byte, err error) {
 		return nil, nil, errors.New("message authentication code not found")
 	}
 
+	// A Read can return data together with an error. If that happened on the read that completed the header, the error has not been reported yet and the reader is not required to return it again: it takes the place of the rest of the stream
+	if err != nil && !errors.Is(err, io.EOF) {
+		*in = errorReader{err: err}
+	}
+
 	// Whatever data we read extra, add it back to the beginning of the stream
 	if n > lastNewline {
 		// We need to copy the data because the buffer will be given back
@@ -424,6 +429,15 @@ func readHeader(in *io.Reader) (manifest []byte, mac []byte, err error) {
 	mac = bytes.Clone(mac)
 
 	return manifest, mac, nil
+}
+
+// errorReader is an io.Reader that always fails with err.
+type errorReader struct {
+	err error
+}
+
+func (r errorReader) Read([]byte) (int, error) {
+	return 0, r.err
 }
 
 func writeOrClosePipe(w *io.PipeWriter, b []byte) bool {
